@@ -1243,6 +1243,100 @@ def r19b(ctx, tier="quick"):
     ctx.floor(rule, "products examined for shared index sources", n_prod, 1000 if tier == "quick" else 300)
 
 
+# ====================================================================== R19e
+# History independence of the index registry: all request histories up to a bounded depth are evaluated on the code of
+# Indices (concrete state, evaluated by sa.symex) and compared with the two laws the derivations rely on:
+#   stability: a named request returns the object that any earlier request handed out for that (name, spin);
+#   freshness: a generic request returns objects that no earlier request of the history (named or generic) handed out.
+
+def _registry(ctx, sx):
+    cls = ctx.model.cls("indices:Indices")
+    mod = ctx.model.module("indices")
+    reg = Obj("indices:Indices", "registry")
+    sx.frames, sx.module, sx.prefix, sx.decisions, sx.facts, sx.path, sx.effects, sx.steps, sx.depth = [{}], mod, [], [], {}, [], [], 0, 0
+    for st in cls.body:
+        if isinstance(st, ast.Assign) and len(st.targets) == 1 and isinstance(st.targets[0], ast.Name):
+            reg.attrs[st.targets[0].id] = sx.ev(st.value)
+        elif isinstance(st, ast.AnnAssign) and isinstance(st.target, ast.Name) and st.value is not None:
+            reg.attrs[st.target.id] = sx.ev(st.value)
+    outs = sx.run(ctx.model.fn("indices:Indices.__init__"), lambda: dict(self=reg))
+    if len(outs) != 1 or outs[0].kind != "return":
+        raise AnalysisError(f"R19e: Indices.__init__ does not evaluate to one state: {outs}")
+    return reg
+
+
+def r19e(ctx, depth=3):
+    rule = "R19e"
+    gi = ctx.model.fn("indices:Indices.get_indices")
+    gg = ctx.model.fn("indices:Indices.get_generic_indices")
+    counter = [0]
+
+    def new_symbol(sx, a, kw):
+        a = [x for x in a if not (isinstance(x, Obj) and x.cls == "indices:Indices")]
+        name = a[0] if a else kw.get("name")
+        counter[0] += 1
+        # a concrete, unique value: the registry code only stores, compares (`is None`) and returns index objects
+        return ("Index", name, a[1] if len(a) > 1 else kw.get("space"), a[2] if len(a) > 2 else kw.get("spin", ""), counter[0])
+    sx = Symex(ctx.model, inline=lambda q: q.startswith("indices:"), hooks={"_new_symbol": new_symbol, "Indices._new_symbol": new_symbol},
+               what="Indices", max_paths=64)
+    # the request alphabet: generic requests of one and two occupied indices and explicit requests of names around the
+    # first generation of generic names (i3 j3 ...), of an unnumbered name and of a name of the next generation
+    ops = [("generic", 1), ("generic", 2), ("named", "i3"), ("named", "j3"), ("named", "k3"), ("named", "i"), ("named", "i4"),
+           ("named", "j3k3")]
+    import itertools
+    n_hist = n_req = 0
+    stale, unstable, failed = [], [], []
+    for L in range(1, depth + 1):
+        for hist in itertools.product(ops, repeat=L):
+            reg = _registry(ctx, sx)
+            handed = {}     # id(object) -> (name, how)
+            by_name = {}
+            n_hist += 1
+            ok = True
+            for kind, arg in hist:
+                n_req += 1
+                if kind == "generic":
+                    outs = sx.run(gg, lambda: dict(self=reg, kwargs={"occ": arg}))
+                else:
+                    outs = sx.run(gi, lambda: dict(self=reg, indices=arg, spins=None))
+                if len(outs) != 1 or outs[0].kind != "return" or not isinstance(outs[0].value, dict):
+                    failed.append((hist, outs))
+                    ok = False
+                    break
+                objs = [o for v in outs[0].value.values() for o in v]
+                if kind == "generic" and len(objs) != arg:
+                    failed.append((hist, f"{len(objs)} objects for a request of {arg}"))
+                for o in objs:
+                    nm = o[1] if isinstance(o, tuple) and len(o) == 5 and o[0] == "Index" else None
+                    if nm is None:
+                        failed.append((hist, f"{show(o)} handed out instead of an index"))
+                        continue
+                    if kind == "generic" and id(o) in handed:
+                        stale.append((hist, nm, handed[id(o)]))
+                    if kind == "named" and nm in by_name and by_name[nm] is not o:
+                        unstable.append((hist, nm))
+                    if kind == "generic" and nm in by_name and by_name[nm] is not o:
+                        unstable.append((hist, nm))
+                    handed.setdefault(id(o), (nm, kind))
+                    by_name.setdefault(nm, o)
+            if not ok:
+                continue
+
+    def hs(h):
+        return " ; ".join(f"generic(occ={a})" if k == "generic" else f"get_indices('{a}')" for k, a in h)
+    ctx.floor(rule, "request histories evaluated on Indices", n_hist, 500)
+    ctx.check(rule, gg, not failed, f"{n_hist} request histories ({n_req} requests) evaluate to index dictionaries",
+              f"history `{hs(failed[0][0]) if failed else ''}` does not return the requested indices: {failed[0][1] if failed else ''}",
+              key="histories evaluate")
+    ctx.check(rule, gg, not stale, "a generic request never hands out an object that an earlier request of the history handed out",
+              f"after `{hs(stale[0][0][:-1]) if stale else ''}` the request `{hs(stale[0][0][-1:]) if stale else ''}` hands out the index "
+              f"{stale[0][1] if stale else ''}, which was already handed out ({stale[0][2][1] if stale else ''} request): contracted "
+              f"indices collide with indices in use ({len(stale)} such histories)", key="generic fresh")
+    ctx.check(rule, gi, not unstable, "one object per index name whatever the history",
+              f"history `{hs(unstable[0][0]) if unstable else ''}` yields two different objects for the name {unstable[0][1] if unstable else ''}",
+              key="named stable")
+
+
 # ====================================================================== R19c
 # Provenance of string literals: no literal that spells a default tensor name reaches a position where a tensor name
 # is expected (constructor name, comparison with / lookup by / prefix test of a tensor name, a tensor-name parameter).
@@ -1933,6 +2027,8 @@ def run(ctx):
         r19h(ctx)
     if ctx.want("R19d"):
         r19d(ctx)
+    if ctx.want("R19e"):
+        r19e(ctx)
     if ctx.want("R19e") or ctx.want("R08c"):
         c08.r08c(ctx)
     if ctx.want("R19a"):
